@@ -533,7 +533,7 @@ def generic_check(mod, tier, seed):
         if (c.op, c.verdict) in reported:
             continue
         reported.add((c.op, c.verdict))
-        small = shrink_case(mod, binpath, c, lambda x, v=c.verdict: x.verdict == v and
+        small = shrink_case(mod, binpath, c, lambda x, v=c.verdict: (x.verdict == v or (getattr(mod, "SHRINK_ANY_FAIL", False) and (x.verdict or "").startswith("fail"))) and
                             classify_known(mod, x, known) is None)
         n += 1
         p = write_replay(mod.ID, n, {"property": mod.ID, "seed": seed, "case": small.to_json(),
@@ -548,7 +548,7 @@ def generic_check(mod, tier, seed):
                        "" if corr_ok else "%d mismatches, e.g. %s" % (len(mismatching), mismatching[0].to_json()))
     if not failing:
         if mismatching:
-            c = shrink_case(mod, binpath, mismatching[0], lambda x: x.model != x.impl)
+            c = shrink_case(mod, binpath, mismatching[0], lambda x: not model_matches(mod, x))
             p = write_replay(mod.ID, "correspondence", {
                 "property": mod.ID, "obligation": "T4 correspondence (model = implementation)",
                 "note": "model and implementation disagree; the property predicate held on every explored input",
@@ -577,6 +577,14 @@ def generic_check(mod, tier, seed):
                    "theorems": [{"name": t["name"], "axioms": t["axioms"]} for t in ths]})
 
 
+def model_matches(mod, c):
+    """model = implementation?  A property module may refine this (e.g. compare a history only up to
+    the step where the property is already violated)."""
+    if hasattr(mod, "matches"):
+        return mod.matches(c)
+    return c.model == c.impl
+
+
 def classify_known(mod, c, known):
     if hasattr(mod, "classify"):
         fid = mod.classify(c)
@@ -596,11 +604,11 @@ def classify_cases(mod, cases, known, res):
                 cnt = res.known.get(fid, (e["what"], 0))[1] + 1
                 res.known[fid] = (e["what"], cnt)
                 # a known finding must still be modelled faithfully
-                if c.model != c.impl:
+                if not model_matches(mod, c):
                     mismatching.append(c)
             else:
                 failing.append(c)
-        elif c.model != c.impl:
+        elif not model_matches(mod, c):
             mismatching.append(c)
     return failing, mismatching
 
